@@ -86,6 +86,22 @@ def rand_do(rnd, sp):
         return {"op": "Do", "drv": "c11", "case": {"mode": sp, "a": rnd.choice([{"y": 1}, {"y": 2, "mo": 1}, {"y": -1, "d": 3}, {"mo": 12}]),
                                                      "b": rnd.choice([{"mo": 12}, {"d": 360}, {"d": 365}, {"d": 366}, {"y": 1}]),
                                                      "c": c11.rand_dur(rnd), "n": rnd.randint(-3, 3)}}
+    if rnd.random() < 0.1:
+        # truncated additions: the search for the next 29th / day 366 / week 53 depends on the mode's month and year lengths
+        from harness.drivers import c20
+        p = gen.rand_point(rnd, m, wide=False, whole=True, allow24=False, years=[1900, 1999, 2000, 2020, 2021, 2023], zones=[(0, 0)])
+        p = dict(p, prec="hms", mi=max(p["mi"], 0), ss=max(p["ss"], 0))
+        if rnd.random() < 0.5 and p["rep"] == "cal":
+            p.update(a=2, b=rnd.choice([1, 27, 28]))
+        from harness import refcal as R_
+        while True:
+            t = c20.rand_trunc(rnd, m, p)
+            if rnd.random() < 0.5:
+                t.update(dom=min(rnd.choice([29, 30, 31]), max(R_.ML[m][1])), doy=0, dow=0, woy=0)
+            # (the class of C20's recorded finding - minute/second without hour plus a day designator - is left to C20)
+            if c20.classify({"t": t}, {"clause": "not-the-earliest-time-of-day"}, []) is None:
+                break
+        return {"op": "Do", "drv": "c20", "case": {"mode": sp, "t": t, "p": p, "order": rnd.choice(["t+p", "p+t"])}}
     if x < 0.3:
         p = gen.rand_point(rnd, m, wide=False, whole=True, allow24=False, years=yrs, zones=[(0, 0), (1, 0)])
         p = dict(p, prec="hms", mi=max(p["mi"], 0), ss=max(p["ss"], 0))
